@@ -1,7 +1,10 @@
-(** C01, the certificate: under the solver assumption [Spec.KKT.stationary], for every declared
-    model whose LMIs are symmetric as written, the multipliers exposed by assign o recover satisfy
-    the identity over all symmetric G and all F, and the reconstruction returns exactly its
-    constant; weak duality follows from dual feasibility. *)
+(** C01, the certificate: under the solver assumption [Spec.KKT.stationary], for EVERY declared model
+    (LMIs symmetric as written or not) the multipliers the objects show after assign o recover - lambda_c,
+    the residual and, for each LMI, the multipliers u_k of its entry correspondences - satisfy the identity
+    over all symmetric G and all F, and the reconstruction returns exactly its constant; the dual matrix of an
+    LMI is the symmetric part of u_k; weak duality follows from dual feasibility.
+    (Proof of the identity: the constant Lagrangian is instantiated at M_k := 0, always a legal symmetric
+    value; the entry rows then contribute u_kij * e_kij, like scalar equality rows.) *)
 From Coq Require Import List QArith Reals Qreals Lra Lia Arith Bool.
 From PV Require Import Base.IPS Model.Dict Model.Terms Model.Sent Model.Cvxpy Model.Cert
      Spec.Sem Spec.GramSem Spec.KKT Proofs.DictLemmas Proofs.SemLemmas Proofs.C01Layout Proofs.C01Gram
@@ -9,62 +12,14 @@ From PV Require Import Base.IPS Model.Dict Model.Terms Model.Sent Model.Cvxpy Mo
 Import ListNotations.
 Local Open Scope R_scope.
 
-(** ** "symmetric as written" gives a symmetric matrix value *)
-Lemma ev_nil G F : evalGF G F [] = 0.
-Proof. reflexivity. Qed.
-
-Lemma sym_entry_spec a b : sym_entry a b = true -> eND a -> eND b ->
-  forall G F, symG G -> evalGF G F a = evalGF G F b.
-Proof.
-  unfold sym_entry. intros H Ha Hb G F HG.
-  destruct (prune (symmetrize (x_sub a b))) eqn:Hp; [|discriminate].
-  assert (H0 : evalGF G F (prune (symmetrize (x_sub a b))) = 0) by (rewrite Hp; reflexivity).
-  rewrite ev_prune, evalGF_symmetrize in H0 by (apply eND_sub; assumption).
-  rewrite (evalGF_ext (symm G) G F F) in H0 by (intros; try apply symm_of_sym; auto).
-  rewrite ev_sub in H0 by assumption. lra.
-Qed.
-
 Definition wf_lmi (m : list (list edict)) : Prop :=
   Forall (fun row => length row = ncols m /\ Forall wf_edict row) m.
 
-Lemma wf_entry m i j : wf_lmi m -> eND (entry m i j).
-Proof.
-  intro H. unfold entry.
-  destruct (nth_in_or_default i m []) as [Hin|Hd].
-  - unfold wf_lmi in H. rewrite Forall_forall in H. destruct (H _ Hin) as [_ Hrow].
-    destruct (nth_in_or_default j (nth i m []) []) as [Hin2|Hd2].
-    + rewrite Forall_forall in Hrow. exact (Hrow _ Hin2).
-    + rewrite Hd2. apply eND_nil.
-  - rewrite Hd. destruct j; apply eND_nil.
-Qed.
+Lemma F2_length {A B} (P : A -> B -> Prop) l1 l2 : Forall2 P l1 l2 -> length l1 = length l2.
+Proof. induction 1; cbn; congruence. Qed.
 
-Lemma entry_out_of_range m i j : wf_lmi m ->
-  (Nat.max (nrows m) (ncols m) <= i \/ Nat.max (nrows m) (ncols m) <= j)%nat -> entry m i j = [].
-Proof.
-  intros H Hij. unfold entry.
-  destruct (le_lt_dec (nrows m) i) as [Hi|Hi].
-  - unfold nrows in Hi. rewrite (nth_overflow m [] Hi). destruct j; reflexivity.
-  - assert (Hin : In (nth i m []) m) by (apply nth_In; exact Hi).
-    unfold wf_lmi in H. rewrite Forall_forall in H. destruct (H _ Hin) as [Hlen _].
-    apply nth_overflow. rewrite Hlen. unfold nrows in *. lia.
-Qed.
-
-Lemma lmi_symmetric_spec m : lmi_symmetric m = true -> wf_lmi m ->
-  forall G F, symG G -> symG (lmi_value G F m).
-Proof.
-  intros Hs Hwf G F HG i j. unfold lmi_value.
-  set (n := Nat.max (nrows m) (ncols m)) in *.
-  destruct (le_lt_dec n i) as [Hi|Hi]; [|destruct (le_lt_dec n j) as [Hj|Hj]].
-  - rewrite (entry_out_of_range m i j), (entry_out_of_range m j i) by (auto; fold n; auto). reflexivity.
-  - rewrite (entry_out_of_range m i j), (entry_out_of_range m j i) by (auto; fold n; auto). reflexivity.
-  - unfold lmi_symmetric in Hs. fold n in Hs. rewrite forallb_forall in Hs.
-    specialize (Hs i). rewrite forallb_forall in Hs.
-    apply sym_entry_spec; [|apply wf_entry; exact Hwf|apply wf_entry; exact Hwf|exact HG].
-    apply Hs; apply in_seq; lia.
-Qed.
-
-(** ** The Lagrangian of the emitted problem at M_k := E_k(G,F) *)
-Section AtEk.
+(** ** The Lagrangian of the emitted problem, split into its (G,F) part and its M part *)
+Section AtM.
   Variable G : nat -> nat -> R.
   Variable F : nat -> R.
   Variable M : nat -> nat -> nat -> R.
@@ -80,63 +35,86 @@ Section AtEk.
       + rewrite IH. lra.
   Qed.
 
-  Lemma rows_term_zero rows : (forall r, In r rows -> forall d, row_term G F M r d = 0) ->
-    forall ds, rows_term G F M rows ds = 0.
+  (** one row of entry equalities M[i][jb..] == e_i,jb.. *)
+  Lemma entry_row_terms kk m i : forall c0 jb dsr, length dsr = c0 ->
+    rows_term G F M (map (fun j => REnt kk i j (entry m i j)) (seq jb c0)) dsr
+    = rdot (map scalar_of dsr) (lmi_value G F m i) jb - rdot (map scalar_of dsr) (M kk i) jb.
   Proof.
-    induction rows as [|r rows IH]; intros H ds; cbn [rows_term]; [reflexivity|].
-    destruct ds as [|d ds]; [reflexivity|].
-    rewrite (H r (or_introl eq_refl)), IH by (intros; apply H; right; assumption). lra.
+    induction c0 as [|c0 IH]; intros jb dsr Hlen; destruct dsr as [|d dsr]; try discriminate;
+      cbn [seq map rows_term rdot]; [lra|].
+    cbn [length] in Hlen. injection Hlen as Hlen. rewrite (IH (S jb) dsr Hlen).
+    destruct d as [u|Sm]; cbn [row_term scalar_of]; unfold lmi_value; [lra|].
+    rewrite RMicromega.Q2R_0. lra.
   Qed.
 
-  Lemma entry_rows_vanish kk m : (forall i j, M kk i j = lmi_value G F m i j) ->
-    forall ds, rows_term G F M (entry_rows kk m) ds = 0.
+  Lemma firstn_map {A B} (f : A -> B) n l : firstn n (map f l) = map f (firstn n l).
+  Proof. revert l. induction n as [|n IH]; intros [|a l]; cbn; try reflexivity. rewrite IH. reflexivity. Qed.
+  Lemma skipn_map' {A B} (f : A -> B) n l : skipn n (map f l) = map f (skipn n l).
+  Proof. revert l. induction n as [|n IH]; intros [|a l]; cbn; try reflexivity. apply IH. Qed.
+
+  (** all the entry equalities of an LMI *)
+  Lemma entry_rows_terms kk m : forall n0 base ds, length ds = (n0 * ncols m)%nat ->
+    rows_term G F M
+      (flat_map (fun i => map (fun j => REnt kk i j (entry m i j)) (seq 0 (ncols m))) (seq base n0)) ds
+    = mdot_from (reshape (ncols m) (map scalar_of ds) n0) (lmi_value G F m) base
+      - mdot_from (reshape (ncols m) (map scalar_of ds) n0) (M kk) base.
   Proof.
-    intros HM. apply rows_term_zero. intros r Hin d. unfold entry_rows in Hin.
-    apply in_flat_map in Hin as [i [_ Hin]]. apply in_map_iff in Hin as [j [<- _]].
-    destruct d as [u|Sm]; cbn [row_term]; [|reflexivity].
-    rewrite HM. unfold lmi_value. lra.
+    induction n0 as [|n0 IH]; intros base ds Hlen; cbn [seq flat_map reshape mdot_from rows_term]; [lra|].
+    rewrite rows_term_app, map_length, seq_length.
+    assert (Hc : (ncols m <= length ds)%nat) by (rewrite Hlen; cbn; lia).
+    rewrite (entry_row_terms kk m base (ncols m) 0%nat) by (rewrite firstn_length; lia).
+    rewrite (IH (S base)) by (rewrite skipn_length, Hlen; cbn; lia).
+    rewrite firstn_map, skipn_map'. lra.
   Qed.
 
-  Lemma rdot_ext row : forall a b j0, (forall j, a j = b j) -> rdot row a j0 = rdot row b j0.
-  Proof. induction row as [|q row IH]; intros a b j0 H; cbn [rdot]; [reflexivity|]. rewrite H, (IH a b); auto. Qed.
-  Lemma mdot_ext Sm A B : (forall i j, A i j = B i j) -> mdot Sm A = mdot Sm B.
-  Proof.
-    intro H. unfold mdot. generalize 0%nat. induction Sm as [|row Sm IH]; intro i0; cbn [mdot_from]; [reflexivity|].
-    rewrite IH. f_equal. apply rdot_ext. intro j. apply H.
-  Qed.
+  (** the part of the Lagrangian that depends on M: sum_k <S_k, M_k> - sum_k <u_k, M_k> *)
+  Fixpoint mpart (kk : nat) (l : sent) (ds : list dval) : R :=
+    match l with
+    | [] => 0
+    | SC e s :: r => mpart kk r (skipn (width (SC e s)) ds)
+    | LMI m :: r =>
+        match hd dnone ds with VM Sd => mdot Sd (M kk) | VS _ => 0 end
+        - mdot (reshape (ncols m) (map scalar_of (firstn (nrows m * ncols m) (tl ds))) (nrows m)) (M kk)
+        + mpart (S kk) r (skipn (width (LMI m)) ds)
+    end.
+
+  Definition shown (l : sent) (ds : list dval) : list expo := combine (combine l (mains l ds)) (ents l ds).
 
   Lemma rows_term_emit l : forall kk ds,
-    (forall k i j, M (kk + k)%nat i j = lmi_value G F (nth k (lmis l) []) i j) ->
     length ds = total_width l ->
-    rows_term G F M (emit_from kk l) ds = - multiplier_sum G F (combine l (mains l ds)).
+    rows_term G F M (emit_from kk l) ds = - multiplier_sum G F (shown l ds) + mpart kk l ds.
   Proof.
-    induction l as [|[e s|m] l IH]; intros kk ds HM Hlen; cbn [emit_from mains combine multiplier_sum rows_term].
+    unfold shown.
+    induction l as [|[e s|m] l IH]; intros kk ds Hlen;
+      cbn [emit_from mains ents combine multiplier_sum rows_term mpart].
     - lra.
     - cbn [total_width width] in Hlen. destruct ds as [|d ds]; [cbn in Hlen; lia|].
       cbn [hd skipn width]. cbn [length] in Hlen.
-      rewrite (IH kk ds) by (try exact HM; lia).
+      rewrite (IH kk ds) by lia.
       destruct s, d as [la|Sm]; cbn [scalar_row row_term multiplier_sum]; lra.
     - cbn [total_width width] in Hlen. destruct ds as [|d ds]; [cbn in Hlen; lia|].
-      cbn [length] in Hlen. unfold lmi_rows. cbn [app rows_term hd width skipn].
-      rewrite rows_term_app, length_entry_rows.
-      rewrite entry_rows_vanish.
-      2:{ intros i j. specialize (HM 0%nat i j). rewrite Nat.add_0_r in HM. exact HM. }
-      rewrite (IH (S kk)).
-      2:{ intros k i j. specialize (HM (S k) i j). cbn [lmis flat_map app nth] in HM.
-          replace (S kk + k)%nat with (kk + S k)%nat by lia. exact HM. }
-      2:{ rewrite skipn_length. lia. }
+      cbn [length] in Hlen. unfold lmi_rows. cbn [app rows_term hd tl width].
       change (skipn (1 + nrows m * ncols m) (d :: ds)) with (skipn (nrows m * ncols m) ds).
-      destruct d as [la|Sm]; cbn [row_term multiplier_sum]; [lra|].
-      rewrite (mdot_ext Sm (M kk) (lmi_value G F m)).
-      2:{ intros i j. specialize (HM 0%nat i j). rewrite Nat.add_0_r in HM. exact HM. }
-      lra.
+      rewrite rows_term_app, length_entry_rows. unfold entry_rows.
+      rewrite (entry_rows_terms kk m (nrows m) 0%nat) by (rewrite firstn_length; lia).
+      rewrite (IH (S kk)) by (rewrite skipn_length; lia).
+      cbn [lmi_multiplier]. unfold mdot.
+      destruct d as [la|Sm]; cbn [row_term]; unfold mdot; lra.
   Qed.
-End AtEk.
+End AtM.
 
-Lemma F2_length {A B} (P : A -> B -> Prop) l1 l2 : Forall2 P l1 l2 -> length l1 = length l2.
-Proof. induction 1; cbn; congruence. Qed.
+Lemma rdot_zero row j0 : rdot row (fun _ => 0) j0 = 0.
+Proof. revert j0. induction row as [|q row IH]; intro j0; cbn [rdot]; [reflexivity|rewrite IH; lra]. Qed.
+Lemma mdot_from_zero Sm i0 : mdot_from Sm (fun _ _ => 0) i0 = 0.
+Proof. revert i0. induction Sm as [|row Sm IH]; intro i0; cbn [mdot_from]; [reflexivity|rewrite IH, rdot_zero; lra]. Qed.
 
-(** the exposed pairs are well-shaped *)
+Lemma mpart_zero l : forall kk ds, mpart (fun _ _ _ => 0) kk l ds = 0.
+Proof.
+  induction l as [|[e s|m] l IH]; intros kk ds; cbn [mpart]; [reflexivity|apply IH|].
+  rewrite IH. unfold mdot. rewrite mdot_from_zero. destruct (hd dnone ds); [lra|rewrite mdot_from_zero; lra].
+Qed.
+
+(** ** What the objects show is well shaped *)
 Lemma same_shape_of Sm m : shape Sm (nrows m) (ncols m) -> wf_lmi m -> same_shape Sm m.
 Proof.
   intros [Hn Hf] Hwf. unfold same_shape, wf_lmi, nrows in *.
@@ -146,28 +124,57 @@ Proof.
   - inversion Hf; inversion Hwf; subst. apply IH; auto.
 Qed.
 
+Lemma shape_reshape c l : forall n, length l = (n * c)%nat -> shape (reshape c l n) n c.
+Proof.
+  intros n. revert l. induction n as [|n IH]; intros l Hl; cbn [reshape]; [split; [reflexivity|constructor]|].
+  destruct (IH (skipn c l)) as [H1 H2]; [rewrite skipn_length; cbn in Hl; lia|].
+  split; [cbn [length]; rewrite H1; reflexivity|]. constructor; [|exact H2].
+  rewrite firstn_length. cbn in Hl. lia.
+Qed.
+
 Lemma wf_lmi_matrix m : wf_lmi m -> wf_matrix m.
 Proof. unfold wf_lmi, wf_matrix. apply Forall_impl. intros row [_ H]. exact H. Qed.
 
-Lemma exposed_ok l : forall kk ds,
+Lemma shown_ok l : forall kk ds,
   wf_sent l -> Forall2 dual_fits (emit_from kk l) ds ->
-  Forall ok_pair (combine l (mains l ds)).
+  Forall ok_expo (shown l ds).
 Proof.
-  induction l as [|[e s|m] l IH]; intros kk ds Hwf Hfit; cbn [mains combine]; [constructor| |].
+  unfold shown.
+  induction l as [|[e s|m] l IH]; intros kk ds Hwf Hfit; cbn [mains ents combine]; [constructor| |].
   - inversion Hwf as [|? ? He Hwf']; subst. cbn [emit_from] in Hfit.
     inversion Hfit as [|r d rs ds' Hd Hfit']; subst. cbn [hd skipn width].
-    constructor; [|apply (IH kk); assumption].
-    destruct d; cbn [ok_pair]; [exact He|exact I].
+    constructor; [|apply (IH kk); assumption]. exact He.
   - inversion Hwf as [|? ? Hm Hwf']; subst. cbn [emit_from] in Hfit. unfold lmi_rows in Hfit.
-    inversion Hfit as [|r d rs ds' Hd Hfit']; subst. cbn [hd skipn width].
+    inversion Hfit as [|r d rs ds' Hd Hfit']; subst. cbn [hd tl width].
+    change (skipn (1 + nrows m * ncols m) (d :: ds')) with (skipn (nrows m * ncols m) ds').
     apply Forall2_app_inv_l in Hfit' as [d1 [d2 [H1 [H2 ->]]]].
     assert (Hl : length d1 = (nrows m * ncols m)%nat)
       by (rewrite <- (F2_length _ _ _ H1); apply length_entry_rows).
-    change (skipn (1 + nrows m * ncols m) (d :: d1 ++ d2)) with (skipn (nrows m * ncols m) (d1 ++ d2)).
-    rewrite <- Hl, skipn_app, skipn_all, Nat.sub_diag. cbn [app skipn].
+    rewrite <- Hl, skipn_app, skipn_all, Nat.sub_diag, firstn_app, firstn_all, Nat.sub_diag. cbn [app skipn firstn].
+    rewrite app_nil_r.
     constructor; [|apply (IH (S kk)); assumption].
-    destruct d as [la|Sm]; cbn [ok_pair]; [exact I|].
-    cbn [dual_fits] in Hd. split; [apply same_shape_of; assumption|apply wf_lmi_matrix; exact Hm].
+    cbn [ok_expo lmi_multiplier]. split; [|split; [|apply wf_lmi_matrix; exact Hm]].
+    + apply same_shape_of; [|exact Hm]. apply shape_reshape. rewrite map_length. exact Hl.
+    + destruct d as [la|Sm]; [exact I|]. cbn [dual_fits] in Hd. apply same_shape_of; assumption.
+Qed.
+
+Lemma map_snd_combine {A B} (l : list A) (l' : list B) : length l = length l' -> map snd (combine l l') = l'.
+Proof.
+  revert l'. induction l as [|a l IH]; intros [|b l'] H; cbn in *; try discriminate; [reflexivity|].
+  f_equal. apply IH. lia.
+Qed.
+
+(** with every object sent once, [exposed] is what [shown] says *)
+Lemma exposed_shown tracked ids d0 ds :
+  NoDup ids -> length ids = length tracked -> (total_width tracked <= length ds)%nat ->
+  exposed tracked ids (d0 :: ds) = (shown tracked ds, d0).
+Proof.
+  intros Hnd Hlen Hds. unfold exposed, recover. cbn [nth].
+  pose proof (recover_loop_spec tracked [d0] ds 1 Hds) as Hrec. cbn [length app] in Hrec.
+  rewrite Hrec. unfold assign. cbn [tl].
+  rewrite map_snd_combine by (rewrite length_mains; reflexivity).
+  rewrite !by_object_nodup by (rewrite ?length_mains, ?length_ents; assumption).
+  reflexivity.
 Qed.
 
 (** ** A dictionary whose value is the same at every (G,F) is a constant dictionary *)
@@ -232,104 +239,206 @@ Section Ident.
   Qed.
 End Ident.
 
-(** * C01_identity_sym *)
-Theorem identity_sym :
-  forall (obj : edict) (tracked : sent) (temp : list dval) (tau : R),
+(** ** Stationarity in M_k: the dual matrix of an LMI is the symmetric part of its entry multipliers *)
+Lemma rdot_ext row : forall a b j0, (forall j, a j = b j) -> rdot row a j0 = rdot row b j0.
+Proof. induction row as [|q row IH]; intros a b j0 H; cbn [rdot]; [reflexivity|]. rewrite H, (IH a b); auto. Qed.
+Lemma mdot_ext Sm A B : (forall i j, A i j = B i j) -> mdot Sm A = mdot Sm B.
+Proof.
+  intro H. unfold mdot. generalize 0%nat. induction Sm as [|row Sm IH]; intro i0; cbn [mdot_from]; [reflexivity|].
+  rewrite IH. f_equal. apply rdot_ext. intro j. apply H.
+Qed.
+
+Lemma mpart_ext M M' l : forall kk ds,
+  (forall k i j, (kk <= k)%nat -> M k i j = M' k i j) -> mpart M kk l ds = mpart M' kk l ds.
+Proof.
+  induction l as [|[e s|m] l IH]; intros kk ds H; cbn [mpart]; [reflexivity|apply IH; exact H|].
+  rewrite (IH (S kk)) by (intros; apply H; lia).
+  rewrite (mdot_ext _ (M kk) (M' kk)) by (intros; apply H; lia).
+  destruct (hd dnone ds) as [q|Sd]; [reflexivity|].
+  rewrite (mdot_ext Sd (M kk) (M' kk)) by (intros; apply H; lia). reflexivity.
+Qed.
+
+Definition delta (a i : nat) : R := if Nat.eqb a i then 1 else 0.
+
+Lemma sumn_delta n (g : nat -> R) j : (j < n)%nat -> sumn n (fun b => g b * delta b j) = g j.
+Proof.
+  induction n as [|n IH]; intro Hj; [lia|]. cbn [sumn]. unfold delta at 2.
+  destruct (Nat.eqb_spec n j) as [->|Hne].
+  - rewrite (sumn_ext j _ (fun _ => 0)).
+    + rewrite sumn_zero. lra.
+    + intros b Hb. unfold delta. destruct (Nat.eqb_spec b j); [lia|lra].
+  - rewrite IH by lia. lra.
+Qed.
+
+(** the symmetric matrix unit E_ij + E_ji *)
+Definition sym_unit (i j : nat) : nat -> nat -> R := fun a b => delta a i * delta b j + delta a j * delta b i.
+
+Lemma mdot_sym_unit X n i j : shape X n n -> (i < n)%nat -> (j < n)%nat ->
+  mdot X (sym_unit i j) = matR X i j + matR X j i.
+Proof.
+  intros Hs Hi Hj. rewrite (mdot_sumn X _ n n Hs). unfold sym_unit.
+  rewrite (sumn_ext n _ (fun a => matR X a j * delta a i + matR X a i * delta a j)).
+  - rewrite sumn_plus, !sumn_delta by assumption. reflexivity.
+  - intros a Ha.
+    rewrite (sumn_ext n _ (fun b => (matR X a b * delta a i) * delta b j + (matR X a b * delta a j) * delta b i))
+      by (intros; lra).
+    rewrite sumn_plus.
+    rewrite (sumn_delta n (fun b => matR X a b * delta a i) j Hj), (sumn_delta n (fun b => matR X a b * delta a j) i Hi).
+    reflexivity.
+Qed.
+
+Definition sym_ok (p : expo) : Prop :=
+  match p with
+  | (LMI m, VM Sd, Some u) =>
+      shape Sd (nrows m) (nrows m) -> shape u (nrows m) (nrows m) -> same_sym_part u Sd (nrows m)
+  | _ => True
+  end.
+
+Lemma mpart_sym l : forall kk ds,
+  (forall M, (forall k, symG (M k)) -> mpart M kk l ds = 0) -> Forall sym_ok (shown l ds).
+Proof.
+  unfold shown.
+  induction l as [|[e s|m] l IH]; intros kk ds H; cbn [mains ents combine]; [constructor| |].
+  - constructor; [exact I|]. apply (IH kk). intros M HM. exact (H M HM).
+  - constructor.
+    + cbn [sym_ok]. destruct (hd dnone ds) as [q|Sd] eqn:Hd; [exact I|]. intros HS Hu i j Hi Hj.
+      set (A := sym_unit i j).
+      pose (M := fun k : nat => if Nat.eqb k kk then A else (fun _ _ => 0)).
+      assert (HM : forall k, symG (M k)).
+      { intros k a b. unfold M. destruct (Nat.eqb k kk); [|reflexivity]. unfold A, sym_unit. lra. }
+      specialize (H M HM). cbn [mpart] in H. rewrite Hd in H.
+      rewrite (mpart_ext M (fun _ _ _ => 0)) in H.
+      2:{ intros k a b Hk. unfold M. destruct (Nat.eqb_spec k kk); [lia|reflexivity]. }
+      rewrite mpart_zero in H.
+      assert (HMk : M kk = A) by (unfold M; rewrite Nat.eqb_refl; reflexivity).
+      rewrite HMk in H. unfold A in H.
+      rewrite (mdot_sym_unit Sd _ i j HS Hi Hj), (mdot_sym_unit _ _ i j Hu Hi Hj) in H. lra.
+    + apply (IH (S kk)). intros M HM.
+      pose (M' := fun k : nat => if Nat.leb k kk then (fun _ _ => 0) else M k).
+      assert (HM' : forall k, symG (M' k)).
+      { intros k a b. unfold M'. destruct (Nat.leb k kk); [reflexivity|apply HM]. }
+      specialize (H M' HM'). cbn [mpart] in H.
+      assert (Hz : M' kk = fun _ _ => 0) by (unfold M'; rewrite Nat.leb_refl; reflexivity).
+      rewrite Hz in H. unfold mdot in H. rewrite !mdot_from_zero in H.
+      rewrite (mpart_ext M' M) in H.
+      2:{ intros k a b Hk. unfold M'. destruct (Nat.leb_spec k kk); [lia|reflexivity]. }
+      destruct (hd dnone ds); rewrite ?mdot_from_zero in H; lra.
+Qed.
+
+(** * C01_dual_matrix_is_sym_part *)
+Theorem dual_matrix_is_sym_part :
+  forall (obj : edict) (tracked : sent) (ids : list nat) (temp : list dval) (tau : R),
+    NoDup ids -> length ids = length tracked ->
+    length temp = length (emit tracked) ->
+    stationary obj (emit tracked) temp tau ->
+    Forall sym_ok (fst (exposed tracked ids temp)).
+Proof.
+  intros obj tracked ids temp tau Hnd Hids Hlen Hstat.
+  rewrite length_emit in Hlen. destruct temp as [|d0 ds]; [cbn in Hlen; lia|]. cbn [length] in Hlen.
+  rewrite (exposed_shown tracked ids d0 ds Hnd Hids) by lia. cbn [fst].
+  apply (mpart_sym tracked 0%nat ds). intros M HM.
+  pose proof (Hstat (fun _ _ => 0) (fun _ => 0) M (fun _ _ => eq_refl) HM) as H1.
+  pose proof (Hstat (fun _ _ => 0) (fun _ => 0) (fun _ _ _ => 0) (fun _ _ => eq_refl) (fun _ _ _ => eq_refl)) as H0.
+  unfold lagrangian, emit in H1, H0. cbn [rows_term] in H1, H0.
+  rewrite (rows_term_emit _ _ M tracked 0%nat ds) in H1 by lia.
+  rewrite (rows_term_emit _ _ (fun _ _ _ => 0) tracked 0%nat ds) in H0 by lia.
+  rewrite mpart_zero in H0.
+  assert (Hg : forall M1 M2, row_term (fun _ _ => 0) (fun _ => 0) M1 RGram d0 = row_term (fun _ _ => 0) (fun _ => 0) M2 RGram d0)
+    by (intros; destruct d0; reflexivity).
+  rewrite (Hg M (fun _ _ _ => 0)) in H1. lra.
+Qed.
+
+(** * C01_identity : for ALL declared models *)
+Theorem identity :
+  forall (obj : edict) (tracked : sent) (ids : list nat) (temp : list dval) (tau : R),
     wf_edict obj -> wf_sent tracked ->
-    all_lmis_symmetric tracked = true ->
+    NoDup ids -> length ids = length tracked ->
     kkt_dual obj (emit tracked) temp tau ->
-    let '(a, res, fd, t) := certificate obj tracked temp in
+    let '(a, res, fd, t) := certificate obj tracked ids temp in
     certificate_identity obj a (res_matrix res) tau
     /\ Q2R t = tau
     /\ (forall k v, In (k, v) fd -> k = K1).
 Proof.
-  intros obj tracked temp tau Hobj Hwf Hsym [Hfit Hstat].
+  intros obj tracked ids temp tau Hobj Hwf Hnd Hids [Hfit Hstat].
   assert (Hlen : length temp = length (emit tracked)) by (symmetry; apply (F2_length _ _ _ Hfit)).
   pose proof Hlen as Hlen'. rewrite length_emit in Hlen'.
   destruct temp as [|d0 ds]; [cbn in Hlen'; lia|]. cbn [length] in Hlen'.
-  unfold certificate, exposed, recover. cbn [nth].
-  pose proof (recover_loop_spec tracked [d0] ds 1) as Hrec. cbn [length app] in Hrec.
-  rewrite Hrec by lia. unfold assign. cbn [tl].
-  set (a := combine tracked (mains tracked ds)).
+  unfold certificate. rewrite (exposed_shown tracked ids d0 ds Hnd Hids) by lia.
+  set (a := shown tracked ds).
   unfold emit in Hfit. inversion Hfit as [|r0 d0' rs ds' Hd0 Hfit']; subst.
-  assert (Hok : Forall ok_pair a) by (apply (exposed_ok tracked 0%nat ds Hwf Hfit')).
-  (* the identity *)
+  assert (Hok : Forall ok_expo a) by (apply (shown_ok tracked 0%nat ds Hwf Hfit')).
+  (* the identity: the constant Lagrangian at M := 0 *)
   assert (Hid : certificate_identity obj a (res_matrix d0) tau).
   { intros G F HG.
-    set (M := fun k => lmi_value G F (nth k (lmis tracked) [])).
-    assert (HMsym : forall k, symG (M k)).
-    { intro k. unfold M. destruct (nth_in_or_default k (lmis tracked) []) as [Hin|Hd].
-      - apply lmi_symmetric_spec; [| |exact HG].
-        + unfold all_lmis_symmetric in Hsym. rewrite forallb_forall in Hsym. apply Hsym. exact Hin.
-        + unfold lmis in Hin |- *. apply in_flat_map in Hin as [it [Hit Hin]].
-          destruct it as [e s|m]; [destruct Hin|]. destruct Hin as [<-|[]].
-          unfold wf_sent in Hwf. rewrite Forall_forall in Hwf. exact (Hwf _ Hit).
-      - rewrite Hd. intros i j. unfold lmi_value, entry. destruct i, j; reflexivity. }
-    pose proof (Hstat G F M HG HMsym) as HL. unfold lagrangian, emit in HL. cbn [rows_term] in HL.
-    rewrite (rows_term_emit G F M tracked 0%nat ds) in HL by (try (intros; reflexivity); lia).
-    fold a in HL.
+    pose proof (Hstat G F (fun _ _ _ => 0) HG (fun _ _ _ => eq_refl)) as HL.
+    unfold lagrangian, emit in HL. cbn [rows_term] in HL.
+    rewrite (rows_term_emit G F _ tracked 0%nat ds) in HL by lia.
+    rewrite mpart_zero in HL. fold a in HL.
     destruct d0 as [q|S0]; cbn [row_term res_matrix] in *; [unfold mdot; cbn [mdot_from]|]; lra. }
   split; [exact Hid|].
   (* the reconstruction *)
   unfold reconstruct.
   set (fd := final_dict obj (res_matrix d0) a).
   assert (Hfd : forall G F, evalGF G F fd = tau).
-  { intros G F. unfold fd, final_dict.
+  { intros G F. unfold fd, final_dict, final_dict_of.
     destruct (combination_spec (symm G) F (res_matrix d0) a Hok) as [Hcc Hcv].
     rewrite ev_prune, evalGF_symmetrize by (apply eND_sub; assumption).
     rewrite ev_sub, Hcv by assumption.
     pose proof (Hid (symm G) F (symm_sym G)) as H. lra. }
   assert (HfdND : eND fd).
-  { unfold fd, final_dict. apply NoDupKeys_prune. unfold symmetrize.
+  { unfold fd, final_dict, final_dict_of. apply NoDupKeys_prune. unfold symmetrize.
     unfold NoDupKeys. rewrite keys_halve.
     destruct (combination_spec (fun _ _ => 0) (fun _ => 0) (res_matrix d0) a Hok) as [Hcc _].
     apply (NoDupKeys_merge ekey ekey_eqb ekey_eqb_spec); [|apply eND_swap]; apply eND_sub; assumption. }
   assert (Hfdnz : forall k v, In (k, v) fd -> ~ (v == 0)%Q).
-  { intros k v Hin. unfold fd, final_dict in Hin. exact (prune_nonzero ekey _ k v Hin). }
+  { intros k v Hin. unfold fd, final_dict, final_dict_of in Hin. exact (prune_nonzero ekey _ k v Hin). }
   exact (constant_dict fd tau HfdND Hfdnz Hfd).
 Qed.
 
-(** the same, restated with projections, under the decidable guard *)
-Theorem identity_partial :
-  forall (obj : edict) (tracked : sent) (temp : list dval) (tau : R),
-    all_lmis_symmetric tracked = true ->
-    wf_edict obj -> wf_sent tracked ->
+(** the same, restated with projections *)
+Theorem identity_proj :
+  forall (obj : edict) (tracked : sent) (ids : list nat) (temp : list dval) (tau : R),
+    wf_edict obj -> wf_sent tracked -> NoDup ids -> length ids = length tracked ->
     kkt_dual obj (emit tracked) temp tau ->
-    certificate_identity obj (fst (exposed tracked temp)) (res_matrix (snd (exposed tracked temp))) tau
-    /\ Q2R (snd (certificate obj tracked temp)) = tau.
+    certificate_identity obj (fst (exposed tracked ids temp)) (res_matrix (snd (exposed tracked ids temp))) tau
+    /\ Q2R (snd (certificate obj tracked ids temp)) = tau.
 Proof.
-  intros obj tracked temp tau Hs Ho Hw Hk.
-  pose proof (identity_sym obj tracked temp tau Ho Hw Hs Hk) as H.
-  unfold certificate in *. destruct (exposed tracked temp) as [a res]. cbn [fst snd] in *.
+  intros obj tracked ids temp tau Ho Hw Hnd Hl Hk.
+  pose proof (identity obj tracked ids temp tau Ho Hw Hnd Hl Hk) as H.
+  unfold certificate in *. destruct (exposed tracked ids temp) as [a res]. cbn [fst snd] in *.
   destruct H as [H1 [H2 _]]. split; assumption.
 Qed.
 
 (** * C01_weak_duality *)
-Lemma multiplier_sum_nonpos G F np l : forall ds,
-  feasible np l G F -> dual_feasible (combine l ds) -> length ds = length l ->
-  multiplier_sum G F (combine l ds) <= 0.
+Lemma multiplier_sum_nonpos G F np l : forall (ds : list dval) (es : list (option (list (list Q)))),
+  feasible np l G F -> dual_feasible (combine (combine l ds) es) -> length ds = length l -> length es = length l ->
+  multiplier_sum G F (combine (combine l ds) es) <= 0.
 Proof.
-  intros ds [_ [_ Hfe]]. revert ds. induction l as [|it l IH]; intros ds Hdf Hlen; [cbn; lra|].
-  destruct ds as [|d ds]; [discriminate|]. cbn [length] in Hlen. injection Hlen as Hlen.
+  intros ds es [_ [_ Hfe]]. revert ds es. induction l as [|it l IH]; intros ds es Hdf Hlen Hlen'; [cbn; lra|].
+  destruct ds as [|d ds]; [discriminate|]. destruct es as [|u es]; [discriminate|].
+  cbn [length] in Hlen, Hlen'. injection Hlen as Hlen. injection Hlen' as Hlen'.
   inversion Hfe as [|? ? Hit Hfe']; subst. cbn [combine] in *.
   destruct it as [e s|m], d as [la|Sm]; cbn [dual_feasible multiplier_sum] in *; try (destruct s; tauto); try tauto.
   - destruct s; cbn [item_holds holdsGF fst snd] in Hit.
-    + destruct Hdf as [Hla Hdf]. specialize (IH Hfe' ds Hdf Hlen). nra.
-    + specialize (IH Hfe' ds Hdf Hlen). rewrite Hit. lra.
-  - destruct Hdf as [Hr Hdf]. specialize (IH Hfe' ds Hdf Hlen).
-    cbn [item_holds] in Hit. pose proof (psd_pairing_nonneg Sm _ _ Hr Hit). lra.
+    + destruct Hdf as [Hla Hdf]. specialize (IH Hfe' ds es Hdf Hlen Hlen'). nra.
+    + specialize (IH Hfe' ds es Hdf Hlen Hlen'). rewrite Hit. lra.
+  - destruct u as [u|]; [|tauto]. destruct Hdf as [Hr [Hu [Hsym Hdf]]]. specialize (IH Hfe' ds es Hdf Hlen Hlen').
+    cbn [item_holds lmi_multiplier] in *.
+    rewrite (mdot_sym_part u Sm _ _ Hu (proj1 Hr) Hsym (proj1 Hit)).
+    pose proof (psd_pairing_nonneg Sm _ _ Hr Hit). lra.
 Qed.
 
 Theorem weak_duality :
-  forall (np : nat) (obj : edict) (tracked : sent) (duals : list dval) (res : list (list Q)) (tau : R),
-    length duals = length tracked ->
-    certificate_identity obj (combine tracked duals) res tau ->
-    dual_feasible (combine tracked duals) ->
+  forall (np : nat) (obj : edict) (tracked : sent) (duals : list dval) (entries : list (option (list (list Q))))
+         (res : list (list Q)) (tau : R),
+    length duals = length tracked -> length entries = length tracked ->
+    certificate_identity obj (combine (combine tracked duals) entries) res tau ->
+    dual_feasible (combine (combine tracked duals) entries) ->
     rank1sum res np ->
     forall G F, feasible np tracked G F -> evalGF G F obj <= tau.
 Proof.
-  intros np obj tracked duals res tau Hlen Hid Hdf Hres G F Hfe.
+  intros np obj tracked duals entries res tau Hlen Hlen' Hid Hdf Hres G F Hfe.
   pose proof (Hid G F (proj1 Hfe)) as H.
-  pose proof (multiplier_sum_nonpos G F np tracked duals Hfe Hdf Hlen) as H1.
+  pose proof (multiplier_sum_nonpos G F np tracked duals entries Hfe Hdf Hlen Hlen') as H1.
   pose proof (psd_pairing_nonneg res G np Hres (proj1 (proj2 Hfe))) as H2. lra.
 Qed.
